@@ -22,6 +22,10 @@ FLOORS = {'R01.1': 2, 'R01.2': 3, 'R01.3': 2, 'R01.4': 2, 'R01.5': 5, 'R01.6': 3
 FMT = r'^fnptr:for<.*> fn\(&.*dyn std::io::Write.*DeferredNow.*log::Record'
 
 
+# user-facing dispatch points are not followed when collecting the emitting bodies of one writer
+STOP_AT = set()
+
+
 def norm(s):
     s = re.sub(r"'\d+", '', s)
     return s.lstrip('&')
@@ -32,11 +36,13 @@ def short(s, n=110):
     return s if len(s) <= n else s[:n // 2] + '…' + s[-n // 2:]
 
 
-def emission_bodies(ctx):
-    """bodies reachable from <FileLogWriter as LogWriter>::write that call a FormatFunction pointer"""
-    root = '<writers::file_log_writer::FileLogWriter as writers::log_writer::LogWriter>::write'
+FILE_ROOT = '<writers::file_log_writer::FileLogWriter as writers::log_writer::LogWriter>::write'
+
+
+def emission_bodies(ctx, roots=(FILE_ROOT,)):
+    """bodies reachable from the given LogWriter::write roots that call a FormatFunction pointer"""
     out = []
-    for p in sorted(ctx.cg.reachable([root], spawn=False)):
+    for p in sorted(ctx.cg.reachable(list(roots), spawn=False, stop=STOP_AT)):
         b = ctx.f.bodies[p]
         if b.promoted is None and any(re.search(FMT, callee_name(t)) for bb, t in b.calls()):
             out.append(b)
@@ -68,12 +74,17 @@ def run(R, ctx):
 
 
 # ---------------------------------------------------------------------------------------------- R01.1
-def emission(R, ctx, rule='R01.1', le_check=True):
+def emission(R, ctx, rule='R01.1', le_check=True, roots=(FILE_ROOT,), le_pattern='line_ending', only=None):
     f = ctx.f
     EFF = [FMT, r'::write_all$', r'State::write_buffer$', r'Vec::<T, A>::(clear|truncate|drain|pop|push|extend_from_slice|insert|remove)$', r'util::eprint_err$',
-           r'try_borrow_mut$', r'Sender::<T>::(send|try_send)$', r'pop_buffer$', r'with_capacity$', r'as std::iter::Extend<.*>>::extend$']
-    NI = [r'State::write_buffer$', r'util::eprint_err$', r'pop_buffer$']
-    for b in emission_bodies(ctx):
+           r'try_borrow_mut$', r'Sender::<T>::(send|try_send)$', r'AsyncHandle::send$', r'pop_buffer$', r'with_capacity$', r'as std::iter::Extend<.*>>::extend$',
+           r'^std::io::_e?print$']
+    NI = [r'State::write_buffer$', r'util::eprint_err$', r'pop_buffer$', r'AsyncHandle::send$']
+    EFF = EFF + [r'util::write_buffered$']
+    NI = NI + [r'util::write_buffered$']
+    for b in emission_bodies(ctx, roots):
+        if only and not re.search(only, b.path):
+            continue
         I = FDI(f, effects=EFF, no_inline=NI)
         rows = I.run(b.path)
         problems = []
@@ -84,18 +95,38 @@ def emission(R, ctx, rule='R01.1', le_check=True):
                 break
             effs = r.effects
             fmts = [i for i, e in enumerate(effs) if re.search(FMT, e[0])]
+            deleg = [e for e in effs if e[0].endswith('util::write_buffered')]
+            if not fmts and len(deleg) == 1:
+                n += 1          # the arm delegates the whole record to write_buffered (analysed on its own)
+                continue
+            if deleg:
+                problems.append("a path both formats itself and delegates to write_buffered")
+                continue
+            if not fmts and not [e for e in effs if e[0].endswith(('write_buffer', '::send', 'write_all'))] and isinstance(r.result, Agg) and r.result.variant == 'Err':
+                n += 1          # the record was refused before formatting (e.g. poisoned lock) and the error is returned
+                continue
             if len(fmts) != 1:
                 problems.append(f"{len(fmts)} format calls on one path")
                 continue
             fi = fmts[0]
             X = norm(effs[fi][1][0])
             emits = [i for i, e in enumerate(effs) if (e[0].endswith('State::write_buffer') and norm(e[1][1]) == X) or
-                     (re.search(r'Sender::<T>::(send|try_send)$', e[0]) and norm(e[1][1]) == X)]
-            other_emits = [i for i, e in enumerate(effs) if (e[0].endswith('State::write_buffer') or re.search(r'Sender::<T>::(send|try_send)$', e[0])) and i not in emits]
+                     (re.search(r'Sender::<T>::(send|try_send)$|AsyncHandle::send$', e[0]) and norm(e[1][1]) == X) or
+                     (e[0].endswith('::write_all') and len(e[1]) > 1 and norm(e[1][1]) == X and norm(e[1][0]) != X) or
+                     (e[0] in ('std::io::_print', 'std::io::_eprint') and X in r.long(e[1][0]))]
+            other_emits = [i for i, e in enumerate(effs) if (e[0].endswith('State::write_buffer') or re.search(r'Sender::<T>::(send|try_send)$|AsyncHandle::send$', e[0])) and i not in emits]
             les = [i for i, e in enumerate(effs) if e[0].endswith('::write_all') and norm(e[1][0]) == X]
             muts = [i for i, e in enumerate(effs) if re.search(r'Vec::<T, A>::(clear|truncate|drain|pop|push|extend_from_slice|insert|remove)$|::extend$', e[0]) and norm(e[1][0]) == X]
             fmt_failed = any(v == 'Err' and 'callptr' in a for a, v in r.cond)
             le_failed = any(v == 'Err' and 'write_all' in a and 'write_buffer' not in a for a, v in r.cond)
+            if 'try_borrow_mut' in X:
+                # the thread-local buffer must be empty again when the path ends (whatever happened in between)
+                after_fmt = [i for i in muts if i > fi] + [i for i in les if i > fi]
+                last_clear = max([i for i in muts if i > fi and effs[i][0].endswith('::clear')], default=None)
+                if last_clear is None or any(i > last_clear for i in after_fmt):
+                    problems.append("a path leaves the formatted bytes in the thread-local buffer (no clear() after the format call): the next record "
+                                    "logged by this thread is glued behind them")
+                    continue
             if other_emits:
                 problems.append(f"emission of a buffer other than the formatted one ({short(effs[other_emits[0]][1][1])})")
             if not emits:
@@ -113,7 +144,7 @@ def emission(R, ctx, rule='R01.1', le_check=True):
                 continue
             if le_check:
                 le = effs[les_between[0]][1][1]
-                if 'line_ending' not in le:
+                if not re.search(le_pattern, le):
                     problems.append(f"the bytes appended after the format output are not the configured line ending ({short(le)})")
             if [i for i in muts if fi < i < ei]:
                 problems.append("the buffer is modified between format and emission")
